@@ -6,6 +6,14 @@ HOOK_COMMITS = ["ca6d3b8", "a1d2aab"]
 
 # id -> (technique, level text, level note, design ref)
 CLAIMED = {
+ "C01": ("bounded exhaustive enumeration of documents from the spec grammar and of all single/double rule-violating edits, three-way compared (generator denotation = reference parser = klog)",
+         "Every document of the stated families (1-3 records x value menus, the full formatting product, every time/duration literal in a skeleton, every single and double edit from a 90-operator catalogue at every line) is parsed by the real parser and compared with an independent reference parser written from the specification: accept/reject and the full denotation (dates, should-totals, summaries, entry kinds, times with shifts and notation, durations with sign notation, dash spacing, placeholder length). The space is enumerated completely, not sampled.",
+         "Trusted: specmodel.Parse (cross-checked against the generator's by-construction denotation on every grammar-derived document), don't-care zones listed in DESIGN §3.1, Go's Unicode tables. Bounds: <=3 records, <=3 entries per record, edit pairs on 6 (quick) / 40 (thorough) base documents.",
+         "DESIGN.md §4 C01"),
+ "C16": ("exhaustive finite-domain sweeps (all time strings, all time pairs, all time+duration sums, all date strings, all duration layouts) against the reference value grammar and integer arithmetic",
+         "The domains named in the property's quantifier are finite and are enumerated completely on every run (62 M evaluations): acceptance, denotation, canonical re-serialisation, notation preservation, equivalence classes, range validity/duration and Plus with its representability boundary are compared with the reference for every element.",
+         "Trusted: specmodel value recognisers (character-level, no regexps) and integer minute arithmetic. Integers > 10^9 are a don't-care.",
+         "DESIGN.md §4 C16"),
  "C15": ("exhaustive finite-domain sweep (all 3,652,425 dates, all period pattern strings) against an independent integer calendar",
          "Complete enumeration of the property's whole quantifier domain: every date 0000-01-01..9999-12-31 and every pattern string of the four shapes for all 10^4 years, each compared with an independent calendar model; bucket-hash injectivity is decided globally (distinct hashes = number of periods). Nothing is sampled, so within the stated domain this is a decision, not a test.",
          "Trusted: specmodel calendar (cross-checked against Go's time package on every day in every run), the Go toolchain. Week periods at the ends of the representable range are expected clamped.",
